@@ -7,16 +7,23 @@ mod c01;
 mod c02;
 mod c03;
 mod syncworld;
+mod c04;
+mod c04_dom;
+mod c04_sql;
+mod c04_world;
 mod c05;
 mod c05_qe;
 mod c06;
 mod c06_model;
 mod c07;
 mod c08;
+mod c09;
 mod c10;
 mod c12;
 mod c14;
 mod c14_full;
+mod c15;
+mod c15_model;
 mod c16;
 mod c17;
 mod c17_full;
@@ -31,7 +38,10 @@ fn main() {
         "C01" => c01::run(&args),
         "C10" => c10::run(&args),
         "C07" => c07::run(&args),
+        "C04" => c04::run(&args),
         "C05" => c05::run(&args),
+        "C09" => c09::run(&args),
+        "C15" => c15::run(&args),
         "C06" => c06::run(&args),
         "C14" => c14::run(&args),
         "C17" => c17::run(&args),
